@@ -145,7 +145,14 @@ func (s *ManagedServer) dequeueSave(ctx context.Context) {
 		select {
 		case <-s.saveQueue:
 		case <-ctx.Done():
-			return
+			// A save job may have been queued before the context was canceled.
+			// When both are ready, select picks one at random, so check the queue
+			// once more before exiting, or the acknowledged change would be lost.
+			select {
+			case <-s.saveQueue:
+			default:
+				return
+			}
 		}
 
 		// Wait for cooldown.
